@@ -24,6 +24,7 @@ class S:
     ordered: bool  # ORDER BY present
     k1: str  # kind of column c1: 'ew' | 'win' | 'agg'
     grouped_now: bool  # a group_by is pending (partition_by non-empty)
+    c1_hidden: bool = False  # column c1 is no longer selected (still referable through an earlier table object)
 
     @property
     def has_window(self):
